@@ -148,6 +148,12 @@ def streams(tier, rng, P, only=None, cases=None):
                 prog = prog + [('play', parts)] + mml.gen_cmds(rng, 0, rng.randrange(0, 3), top=False)
             src = mml.pr(prog)
             L = rng.choice(["1", "4", "8.", "2^8", "%37", "16", ""])
+            if rng.random() < 0.25:
+                # a reverse rest `r-L` (after a whole-note rest, so that nothing is pushed before tick 0): the shift is 384 - L, whatever the
+                # form of the length (digits, ticks, dots only, omitted)
+                L = rng.choice(["4", "8.", "%48", "%37", "", ".", "1", "2^8", "16"])
+                cs.append(dict(req="run2 %s %s" % (hx(src), hx("r1 r-" + L + " " + src)), src=src, show="r1 r-%s + [%s]" % (L, src[:200]), L=L, rev=True, key="rs%d" % i))
+                continue
             cs.append(dict(req="run2 %s %s" % (hx(src), hx("r" + L + " " + src)), src=src, show="r%s + [%s]" % (L, src[:200]), L=L, key="rs%d" % i))
         return cs
     def rs_model(c, st, f): return ["lenspec 96 96 %s" % _len_syn(c["L"])]
@@ -155,6 +161,7 @@ def streams(tier, rng, P, only=None, cases=None):
         st, f = impl
         if st != "ok": return None
         L = int(m[0].split("out=")[1])
+        if c.get("rev"): L = 384 - L
         t1 = f["tracks1"].split(";"); t2 = f["tracks2"].split(";")
         if len(t1) != len(t2): return ("violation", "track count changed by a leading rest")
         for a, b in zip(t1, t2):      # (the programs do not switch tracks: every track that exists was created by PLAY at the shifted position)
@@ -200,5 +207,5 @@ def streams(tier, rng, P, only=None, cases=None):
 
 def _len_syn(L):
     """syntax tree (wire form of C04's lenspec) of the few fixed rest lengths used above"""
-    table = {"1": "0:0:1:0", "4": "0:0:4:0", "8.": "0:0:8:1", "2^8": "0:0:2:0;94/0:0:8:0", "%37": "1:0:37:0", "16": "0:0:16:0", "": "0:0:~:0"}
+    table = {"1": "0:0:1:0", "4": "0:0:4:0", "8.": "0:0:8:1", "2^8": "0:0:2:0;94/0:0:8:0", "%37": "1:0:37:0", "16": "0:0:16:0", "": "0:0:~:0", "%48": "1:0:48:0", ".": "0:0:~:1"}
     return table[L]
